@@ -292,6 +292,9 @@ _TTC_COMMON = dict(
     # rejected exactly when the glyf format cannot hold cubic curves and ANY point of ANY drawable glyph is flagged cubic
     raises={"ValueError": _RAISES},
     locals={"ttGlyphs": Dict(STR, Ref("C02_TTGlyph"))},
+    # frame: only the pens created inside the loop are written (declared class-wide: the allocation inside the loop body is not visible
+    # to the frame check after the loop cut; callers merely forget more)
+    modifies=["TTGlyphPointPen.glyphSet", "TTGlyphPointPen.drawn"],
 )
 _TTC_INV = {
     # (`round` is assigned once before the loop and never inside it, so its value needs no invariant)
